@@ -5,7 +5,9 @@
 From Coq Require Import ZArith String List Bool Lia ZifyBool.
 From PushModel Require Import Base.Sx Base.Machine Base.ListOps Base.F32 Model.Item Model.GraphT Model.State
   Model.InstrBase Model.IScalar Model.ICode Model.IVector Model.IList Model.IIo Model.IGraph
-  Model.Registry Model.Interp Model.RegistryVec Model.RegistryListIo Model.RegistryGraph Model.RegistryAll
+  Model.Topology Model.INeighbor Model.RandomGen Model.IRand
+  Model.Registry Model.Interp Model.RegistryVec Model.RegistryListIo Model.RegistryGraph Model.RegistryNbr
+  Model.RegistryRand Model.RegistryAll
   Spec.DetSpec Proofs.DeterminismItems Proofs.DeterminismInv.
 Import ListNotations.
 Open Scope Z_scope.
@@ -100,14 +102,32 @@ Section Walk.
   Lemma list_keeps : Forall entry_keeps tbl_list.
   Proof. unfold tbl_list. walk_with list_entry. Qed.
 
-  Theorem full_table_keeps : Forall entry_keeps full_table.
+  Lemma nbr_keeps : Forall entry_keeps tbl_nbr.
+  Proof. unfold tbl_nbr. walk_with entry_tac. Qed.
+
+  (* the RAND family: literals and names only — except CODE.RAND *)
+  Definition closure_exception (n : string) : bool := lit_in closure_exceptions n.
+
+  Ltac rand_entry :=
+    first [ let H := fresh in intros H; vm_compute in H; discriminate H
+          | intros _; entry_tac ].
+
+  Lemma rand_keeps instrs : Forall (fun e => closure_exception (fst e) = false -> entry_keeps e) (tbl_rand instrs).
+  Proof. unfold tbl_rand. walk_with rand_entry. Qed.
+
+  Lemma Forall_weaken {A} (P Q : A -> Prop) l : (forall x, P x -> Q x) -> Forall P l -> Forall Q l.
+  Proof. intros H F. induction F; constructor; auto. Qed.
+
+  Theorem full_table_keeps : Forall (fun e => closure_exception (fst e) = false -> entry_keeps e) full_table.
   Proof.
-    unfold full_table.
+    unfold full_table. apply Forall_app; split; [|apply rand_keeps].
+    apply (Forall_weaken entry_keeps); [auto|]. unfold base_table.
     apply Forall_app; split; [exact core_keeps|].
     apply Forall_app; split; [exact bvec_keeps|].
     apply Forall_app; split; [exact ivec_keeps|].
     apply Forall_app; split; [exact fvec_keeps|].
     apply Forall_app; split; [exact list_keeps|].
-    apply Forall_app; split; [exact io_keeps|exact graph_keeps].
+    apply Forall_app; split; [exact io_keeps|].
+    apply Forall_app; split; [exact graph_keeps|exact nbr_keeps].
   Qed.
 End Walk.
